@@ -63,6 +63,89 @@ SALT_LENS = (8,)
 PASS_LENS = (1, 5, 11, 12, 19, 32, 1500, 65536)
 
 
+def derive_key_call_sites(prog, fi):
+    """Call sites `<recv>.derive_key(...)` that fit String2Key.derive_key and pass more than the passphrase:
+    [(caller FunctionInfo, ast.Call, {parameter: argument expression})]."""
+    a = fi.node.args
+    pos = fi.params[1:]
+    kwonly = [x.arg for x in a.kwonlyargs]
+    out = []
+    for f in prog.all_functions():
+        for n in ast.walk(f.node):
+            if not (isinstance(n, ast.Call) and isinstance(n.func, ast.Attribute) and n.func.attr == fi.name):
+                continue
+            if any(isinstance(x, ast.Starred) for x in n.args) or any(k.arg is None for k in n.keywords):
+                continue
+            if len(n.args) > len(pos) or any(k.arg not in pos + kwonly for k in n.keywords):
+                continue        # another derive_key (ECKDF): does not fit this signature
+            given = dict(zip(pos, n.args))
+            given.update({k.arg: k.value for k in n.keywords})
+            extra = {k: v for k, v in given.items() if k != pos[0]}
+            if extra:
+                out.append((f, n, extra))
+    return out
+
+
+def derive_key_bindings(prog, fi):
+    """Values of the parameters of derive_key other than the passphrase (new parameters introduced by an edit), one binding per
+    way the function is entered: the defaults, and each call site that passes them - the argument is read in the callee's terms
+    (the call's receiver expression is the callee's `self`).  -> [(label, {parameter: Val})]; an argument that cannot be
+    expressed over the callee's own state is an AnalysisError (exit 2), never a verdict."""
+    a = fi.node.args
+    me = fi.params[0]
+    extras = fi.params[2:] + [x.arg for x in a.kwonlyargs]
+    if not extras:
+        return [('', {})]
+    defaults = dict(zip(fi.params[len(fi.params) - len(a.defaults):], a.defaults)) if a.defaults else {}
+    for x, d in zip(a.kwonlyargs, a.kw_defaults):
+        if d is not None:
+            defaults[x.arg] = d
+
+    def val(e):
+        try:
+            return Const(ast.literal_eval(e))
+        except Exception:
+            return Sym(ast.unparse(e))
+    out, seen = [], set()
+    if all(p in defaults for p in extras):
+        for p in extras:
+            try:
+                ast.literal_eval(defaults[p])
+            except Exception:
+                raise AnalysisError('String2Key.derive_key: default of %s is not a literal' % p)
+        out.append((' [defaults]', {p: val(defaults[p]) for p in extras}))
+        seen.add(tuple(sorted((p, ast.unparse(defaults[p])) for p in extras)))
+    for f, call, given in derive_key_call_sites(prog, fi):
+        recv = ast.dump(call.func.value)
+
+        class ToCallee(ast.NodeTransformer):
+            def visit(self, node):
+                if isinstance(node, ast.expr) and ast.dump(node) == recv:
+                    return ast.Name(id=me, ctx=ast.Load())
+                return self.generic_visit(node)
+        bind = {}
+        for p in extras:
+            if p in given:
+                e = ToCallee().visit(ast.parse(ast.unparse(given[p]), mode='eval').body)
+                free = {n.id for n in ast.walk(e) if isinstance(n, ast.Name)} - {me, 'None', 'True', 'False'}
+                if free:
+                    raise AnalysisError('String2Key.derive_key: call in %s passes %s=%s, which is not a function of the specifier itself '
+                                        '(%s)' % (f.qualname, p, ast.unparse(given[p]), ', '.join(sorted(free))))
+                bind[p] = (p, e)
+            elif p in defaults:
+                bind[p] = (p, defaults[p])
+            else:
+                raise AnalysisError('String2Key.derive_key: call in %s does not pass %s' % (f.qualname, p))
+        key = tuple(sorted((p, ast.unparse(e)) for p, e in bind.values()))
+        if key in seen:
+            continue
+        seen.add(key)
+        out.append((' [as called from %s: %s]' % (f.qualname, ', '.join('%s=%s' % kv for kv in key)), {p: val(e) for p, e in bind.values()}))
+    if not out:
+        raise AnalysisError('String2Key.derive_key: parameters %s have neither defaults nor a resolvable call site' % extras)
+    return out
+
+
 def check_derive_key(rep, prog, r1='C12.1', r2='C12.2'):
     global R1, R2
     R1, R2 = r1, r2
@@ -78,16 +161,18 @@ def check_derive_key(rep, prog, r1='C12.1', r2='C12.2'):
                           'count or hash of the specifier changes the key of the old parameters is returned', where=fi.where, found=ast.unparse(d))
         else:
             raise AnalysisError('String2Key.derive_key is decorated with @%s: the rule cannot see what the wrapper returns' % dn)
-    for spec, salted in (('Simple', False), ('Salted', True), ('Iterated', True)):
+    for label, extra in derive_key_bindings(prog, fi):
+      for spec, salted in (('Simple', False), ('Salted', True), ('Iterated', True)):
         for ptype in ('bytes', 'str'):
-            sc = Scenario(bind={'%s.specifier' % me: enum_const(prog, 'String2KeyType', spec)},
-                          args={pname: Sym(pname, types={ptype}, nonnull=True)}, inline=inline_new)
+            args = {pname: Sym(pname, types={ptype}, nonnull=True)}
+            args.update(extra)
+            sc = Scenario(bind={'%s.specifier' % me: enum_const(prog, 'String2KeyType', spec)}, args=args, inline=inline_new)
             outs = Interp(prog, sc).run(fi)
             rep.analysed['paths'] += len(outs)
             PASS = pname if ptype == 'bytes' else "%s.encode('utf-8')" % pname
             SALT = '%s.salt' % me
             unit_items = ([('SYM', SALT)] if salted else []) + [('SYM', PASS)]
-            scen = '%s x %s passphrase' % (spec, ptype)
+            scen = '%s x %s passphrase%s' % (spec, ptype, label)
             world = World(me, pname, SALT if salted else None, PASS, spec == 'Iterated', ci)
             rets = [s for s in outs if s.raised is None]
             if not rets:
